@@ -149,3 +149,172 @@ def canaries_eq(programs):
         Q.note = "CANARY (oracle drops a compared field) of " + P.pid
         out.append(Q)
     return out
+
+
+# ---------------------------------------------------------------------------------
+# C03 / C04
+ORD_TYS = ["u8", "i8", "bool", "u16"]
+PORD_TYS = ["crate::m::Inc", "u8", "i8", "u16"]
+
+
+def ord_field(name, a, rank, md, carrier, form, generics, i):
+    meths = ["crate::m::pcmp_a", "crate::m::pcmp_b"] if md == "po" else ["crate::m::cmp_a", "crate::m::cmp_b"]
+    sem = {"ignore": a == "i", "method": meths[i % 2] if a == "m" else None, "rank": rank}
+    if a == "m":
+        ty = "u8"
+    else:
+        ty = "T%d" % len(generics)
+        generics.append(ty)
+    sp = spell_field(carrier, sem, form)
+    return Field(name, ty, attrs=[sp] if sp else [], ord=sem)
+
+
+def ord_program(pid, kind, name, variants, md, generics, rot, note, prop=None, repr_=None, with_peq="educe"):
+    if md == "both":
+        traits = ["PartialEq", "Eq", "PartialOrd", "Ord"]
+        focus = {"Ord", "PartialOrd"}
+        tys = ORD_TYS
+    else:
+        traits = ["PartialEq", "PartialOrd"]
+        focus = {"PartialOrd"}
+        tys = PORD_TYS
+    if rot % 4 == 1:
+        traits = list(reversed(traits))
+    P = Program(pid, kind, name, variants, traits, generics=generics, inst=inst_for(generics, tys, rot),
+                focus=focus, note=note, repr_=repr_, ord={"mode": md})
+    if md == "po" and generics and rot % 6 == 1:
+        P.inst[generics[0]] = "f32"      # real NaN; costly in CBMC, so only every sixth program
+    if prop:
+        P.tags["prop"] = prop
+    return P
+
+
+def rank_schemes(n, perm, scheme):
+    """ranks per field index so that the visiting order is perm (a tuple of field indexes)"""
+    ranks = [None] * n
+    if scheme == 0:
+        vals = [-7, 0, 5, 300][:n]
+        for k, fi in enumerate(perm):
+            ranks[fi] = vals[k]
+    elif scheme == 1:
+        # unranked fields come first in declaration order; rank the rest after them
+        unr = sorted(perm[:1])
+        vals = [-1, 2, 1000][:n]
+        for k, fi in enumerate(perm[1:]):
+            ranks[fi] = vals[k]
+    else:
+        vals = [ISIZE_MIN, -3, (1 << 63) - 1][:n]
+        for k, fi in enumerate(perm):
+            ranks[fi] = vals[k]
+        # field 1 unranked would collide with isize::MIN + 1 only if explicitly given; fine
+    return ranks
+
+
+def c03(tier, seed):
+    rnd = random.Random(seed)
+    c = Counter()
+    out = []
+    form = 0
+    maxn = 3 if tier == "quick" else 4
+    for shape in ("named", "tuple"):
+        for n in range(0, maxn + 1):
+            for assign in itertools.product("nim", repeat=n):
+                form += 1
+                md = "both" if form % 2 == 0 else "po"
+                carrier = "PartialOrd" if (md == "po" or form % 4 == 0) else "Ord"
+                generics = []
+                names = HOSTILE if form % 5 == 0 else NAMES
+                fields = [ord_field(names[i] if shape == "named" else None, a, None, md, carrier, form + i, generics, i)
+                          for i, a in enumerate(assign)]
+                out.append(ord_program(c.pid(), "struct", "S", [Variant(None, shape, fields)], md, generics, form,
+                                       "struct %s ord=%s mode=%s carrier=%s" % (shape, "".join(assign) or "-", md, carrier)))
+    # ranks
+    for n in (2, 3) + ((4,) if tier != "quick" else ()):
+        perms = list(itertools.permutations(range(n)))
+        if n == 4:
+            perms = rnd.sample(perms, 10)
+        for perm in perms:
+            for scheme in (0, 1, 2):
+                form += 1
+                md = "both" if form % 2 == 0 else "po"
+                carrier = "PartialOrd" if (md == "po" or form % 4 == 0) else "Ord"
+                ranks = rank_schemes(n, perm, scheme)
+                assign = ["n"] * n
+                if form % 3 == 0:
+                    assign[form % n] = "m"
+                if form % 7 == 0:
+                    assign[(form + 1) % n] = "i"
+                shape = "named" if form % 2 else "tuple"
+                generics = []
+                fields = [ord_field(NAMES[i] if shape == "named" else None, a, ranks[i], md, carrier, form + i, generics, i)
+                          for i, a in enumerate(assign)]
+                out.append(ord_program(c.pid(), "struct", "S", [Variant(None, shape, fields)], md, generics, form,
+                                       "struct %s ranks=%s ord=%s mode=%s carrier=%s" % (shape, ranks, "".join(assign), md, carrier)))
+    out.append(ord_program(c.pid(), "struct", "S", [Variant(None, "unit", [])], "both", [], 0, "unit struct"))
+    # enums (same-variant ordering; cross-variant with implicit discriminants)
+    kinds = {"u": ("unit", 0), "t1": ("tuple", 1), "t2": ("tuple", 2), "n2": ("named", 2), "n3": ("named", 3), "t3": ("tuple", 3)}
+    combos = [(a,) for a in ("u", "t1", "t2", "n2")] + list(itertools.product(("u", "t1", "t2", "n2"), repeat=2))
+    combos += [("u", "t1", "n2"), ("t2", "t2", "u"), ("n2", "n2", "n2"), ("u", "u", "u"), ("t1", "t1", "t1"), ("n2", "u", "t2"),
+               ("t1", "n2", "t2"), ("t2", "u", "n2"), ("n2", "t1", "u"), ("u", "t2", "t1"), ("t1", "u", "u"), ("n3", "t3", "u")]
+    if tier != "quick":
+        combos += [tuple(rnd.choice(list(kinds)) for _ in range(rnd.choice((3, 4, 5)))) for _ in range(100)]
+    for ci, combo in enumerate(combos):
+        form += 1
+        md = "both" if form % 2 == 0 else "po"
+        carrier = "PartialOrd" if (md == "po" or form % 4 == 0) else "Ord"
+        generics, variants, pos = [], [], 0
+        for vi, k in enumerate(combo):
+            kind, m = kinds[k]
+            fs = []
+            # a rank permutation inside multi-field variants, rotating
+            perm = list(range(m))
+            if m >= 2 and (ci + vi) % 2 == 0:
+                perm = perm[1:] + perm[:1]
+            ranks = rank_schemes(m, tuple(perm), (ci + vi) % 2) if (m >= 2 and (ci + vi) % 3 != 1) else [None] * m
+            for j in range(m):
+                pos += 1
+                a = "nim"[(pos + ci) % 3] if (pos + ci) % 2 == 0 else "n"
+                if tier != "quick":
+                    a = rnd.choice("nnim")
+                g2 = []
+                f = ord_field(NAMES[j] if kind == "named" else None, a, ranks[j], md, carrier, form + pos, g2, pos)
+                if g2:
+                    f.ty = "T%d" % (pos % 3)
+                    if f.ty not in generics:
+                        generics.append(f.ty)
+                fs.append(f)
+            variants.append(Variant("V%d" % vi, kind, fs))
+        generics.sort()
+        out.append(ord_program(c.pid(), "enum", "E", variants, md, generics, ci, "enum %s mode=%s carrier=%s" % ("/".join(combo), md, carrier)))
+    return out
+
+
+def canaries_ord(programs):
+    out = []
+    # (1) swap the visiting order of two fields in the oracle  (2) un-ignore
+    picks = [p for p in programs if p.kind == "struct" and len([f for f in p.variants[0].fields if not f.s("ord", "ignore")]) >= 2]
+    for P in [picks[2], picks[-1]] + [p for p in picks if p.s("ord", "mode") == "po"][:1]:
+        Q = P.clone()
+        Q.pid = P.pid + "_canary"
+        Q.canary_of = P.pid
+        fs = [f for f in Q.variants[0].fields if not f.s("ord", "ignore")]
+        from .t_ord import visited
+        vs = visited(Q.variants[0])
+        a, b = vs[0], vs[1]
+        ra = a.s("ord", "rank") if a.s("ord", "rank") is not None else ISIZE_MIN + a.idx
+        rb = b.s("ord", "rank") if b.s("ord", "rank") is not None else ISIZE_MIN + b.idx
+        a.sem["ord"] = dict(a.sem["ord"], rank=rb)
+        b.sem["ord"] = dict(b.sem["ord"], rank=ra)
+        Q.note = "CANARY (oracle swaps the first two visited fields) of " + P.pid
+        out.append(Q)
+    es = [p for p in programs if p.kind == "enum" and len(p.variants) >= 2]
+    for P in es[3:4]:
+        Q = P.clone()
+        Q.pid = P.pid + "_canary"
+        Q.canary_of = P.pid
+        Q.variants[0].discr = 1000   # oracle believes the first variant sorts last
+        Q.variants[1].discr = 0
+        Q.tags["canary_keep_src"] = True
+        Q.note = "CANARY (oracle uses a wrong discriminant) of " + P.pid
+        out.append(Q)
+    return out
